@@ -288,6 +288,7 @@ class Atomic : public AtomicIntegralBase<Impl, T> {
 
  public:
   using Base::Base;
+  using AtomicBase<Impl, T>::operator=;
 };
 
 template <typename Impl, typename U>
@@ -296,6 +297,7 @@ class Atomic<Impl, U*> : public AtomicBase<Impl, U*> {
 
  public:
   using Base::Base;
+  using Base::operator=;
 
   U* fetch_add(std::ptrdiff_t arg, std::memory_order order = std::memory_order_seq_cst) noexcept {
     YACLIB_INJECT_FAULT(auto* r = Impl::fetch_add(arg, order));
